@@ -617,30 +617,34 @@ example : (Md.new ⟨.left, 2, arr [2,3], fun _ => 0⟩ 7).get? (arr [1,2]) = so
     ((Md.new ⟨.left, 2, arr [2,3], fun _ => 0⟩ 7).set (arr [1,2]) 9).data = [7,7,7,7,7,9] ∧
     ((Md.new ⟨.right, 2, arr [2,3], fun _ => 0⟩ 7).set (arr [1,0]) 9).data = [7,7,7,9,7,7] := by decide
 
-/-- copies refer to equal elements, for ALL accessor choices: an array built from a view (`mdarray(const mdspan&)`:
-    container of `other.size()` elements, `mapping_(other.mapping())`, then the nested loops
-    `container_[mapping_(ii...)] = other[ii...]`) holds at every valid index the element the view yields there, i.e.
-    `accessor.access(data_handle, other.mapping()(ii...))` — for a left/right array and a view of any layout and ANY
-    accessor policy (`other.acc` is an arbitrary function of the offset) over the same extents that stays inside its
-    storage -/
-theorem mdarray_from_view_elements (m : Mapping) (hm : m.lay ≠ .stride) (other : View)
-    (hrank : other.map.rank = m.rank) (hext : ∀ k, k < m.rank → other.map.ext k = m.ext k)
+/-- the number of elements the two `mdarray(const mdspan&[, const Alloc&])` constructors create their container with
+    (the member initialisers as regenerated from mdarray.hh) is the required span of the mapping the array adopts, and
+    both constructors build the same array -/
+theorem mdarray_from_view_alloc (m : Mapping) (other : View) :
+    mdarray_from_mdspan_csize m.requiredSpan other.map.requiredSpan (mdSize other.map.rank other.map.ext) = m.requiredSpan ∧
+    mdarray_from_mdspan_alloc_csize m.requiredSpan other.map.requiredSpan (mdSize other.map.rank other.map.ext) = m.requiredSpan ∧
+    Md.fromViewAlloc m other = Md.fromView m other := ⟨rfl, rfl, rfl⟩
+
+/-- copies refer to equal elements, for ALL layout, accessor and stride choices: an array built from a view
+    (`mdarray(const mdspan&)`: container of `mapping_type(other.mapping()).required_span_size()` elements,
+    `mapping_(other.mapping())`, then the nested loops `container_[mapping_(ii...)] = other[ii...]`) holds at every valid
+    index the element the view yields there, i.e. `accessor.access(data_handle, other.mapping()(ii...))` — for an array
+    with EVERY unique mapping `m` (left, right, or strided with any stride vector making it unique: padded, permuted,
+    non-exhaustive — a user-supplied layout policy) and a view of any layout and ANY accessor policy (`other.acc` is an
+    arbitrary function of the offset) that stays inside its storage.  (Round four: the restriction to left/right arrays
+    is gone; with a container of `other.size()` elements the statement is false for non-exhaustive mappings.) -/
+theorem mdarray_from_view_elements (m : Mapping) (hu : InjOn m) (other : View)
+    (hrank : other.map.rank = m.rank)
     (hother : ∀ J, Valid m.rank m.ext J → ∃ v, other.get? J = some v)
     (I : Arr) (hI : Valid m.rank m.ext I) : (Md.fromView m other).get? I = other.get? I := by
-  have hinj : InjOn m := fun I J hI hJ h =>
-    offset_injective m I J (fun hs => absurd hs hm) hI hJ h
   unfold Md.fromView
   rw [initFromView_eq]
-  apply initFold_spec m hinj other hrank (fun J hJ => offset_in_range m J hJ) I hI (hother I hI)
+  apply initFold_spec m hu other hrank (fun J hJ => offset_in_range m J hJ) I hI (hother I hI)
   · rfl
-  · -- the container of other.size() elements is exactly the required span of a left/right mapping
-    show m.requiredSpan ≤ (List.replicate (mdSize other.map.rank other.map.ext) 0).length
-    rw [List.length_replicate, mdSize_eq, hrank, prodFrom_congr (fun k _ hk => hext k (by simpa using hk))]
-    cases m with | mk lay rank ext str =>
-    cases lay
-    · show product rank ext ≤ _; rw [product_eq]; exact Nat.le_refl _
-    · show product rank ext ≤ _; rw [product_eq]; exact Nat.le_refl _
-    · exact absurd rfl hm
+  · -- the container has exactly the required span of the adopted mapping
+    show m.requiredSpan ≤ (List.replicate _ 0).length
+    rw [List.length_replicate, (mdarray_from_view_alloc m other).1]
+    exact Nat.le_refl _
   · intro t ht k hk
     obtain ⟨hl, hv⟩ := valid_of_mem_allTuples _ t ht
     rw [toList_length] at hl hv
@@ -657,11 +661,11 @@ theorem mdarray_from_view_elements (m : Mapping) (hm : m.lay ≠ .stride) (other
       exact hI k hk
 
 /-- the special case of a view with `default_accessor` over flat storage -/
-theorem mdarray_from_mdspan_elements (m : Mapping) (hm : m.lay ≠ .stride) (other : Md)
-    (hrank : other.map.rank = m.rank) (hext : ∀ k, k < m.rank → other.map.ext k = m.ext k)
+theorem mdarray_from_mdspan_elements (m : Mapping) (hu : InjOn m) (other : Md)
+    (hrank : other.map.rank = m.rank)
     (hother : ∀ J, Valid m.rank m.ext J → ∃ v, other.get? J = some v)
     (I : Arr) (hI : Valid m.rank m.ext I) : (Md.fromMdspan m other).get? I = other.get? I :=
-  mdarray_from_view_elements m hm other.toView hrank hext hother I hI
+  mdarray_from_view_elements m hu other.toView hrank hother I hI
 
 example : (Md.fromMdspan ⟨.left, 2, arr [2,3], fun _ => 0⟩ ⟨⟨.right, 2, arr [2,3], fun _ => 0⟩, [10,11,12,13,14,15]⟩).data
     = [10,13,11,14,12,15] := by decide
@@ -672,33 +676,42 @@ example : (Md.fromView ⟨.left, 2, arr [2,3], fun _ => 0⟩
     (AccView.toView ⟨⟨.right, 2, arr [2,3], fun _ => 0⟩, fun i => 2 * i + 1, [0,1,2,3,4,5,6,7,8,9,10,11,12]⟩)).data
     = [1,7,3,9,5,11] := by decide
 
-/-- the container of an array built from a view (any accessor policy) has `other.size()` elements, which is exactly the
-    span its (left/right) mapping requires: every later access at a valid index is inside the container -/
-theorem mdarray_from_view_container (m : Mapping) (hm : m.lay ≠ .stride) (other : View)
-    (hrank : other.map.rank = m.rank) (hext : ∀ k, k < m.rank → other.map.ext k = m.ext k) :
-    (Md.fromView m other).data.length = mdSize other.map.rank other.map.ext ∧
+-- a padded array (rows of 3 elements padded to 4: extents (2,3), strides (4,1), unique by the criterion, NOT exhaustive:
+-- size() = 6 < required span 7) built from a view with the same mapping: 7 elements, the padding entry stays 0, the last
+-- element sits at offset 6 — with a container of other.size() = 6 elements it would lie outside
+example : SortedUnique 2 (arr [2,3]) (arr [4,1]) ∧
+    (Md.fromMdspan ⟨.stride, 2, arr [2,3], arr [4,1]⟩ ⟨⟨.stride, 2, arr [2,3], arr [4,1]⟩, [10,11,12,13,14,15,16]⟩).data
+      = [10,11,12,0,14,15,16] ∧
+    mdSize 2 (arr [2,3]) = 6 ∧ Mapping.offset ⟨.stride, 2, arr [2,3], arr [4,1]⟩ (arr [1,2]) = 6 :=
+  ⟨⟨[0,1], by decide, by decide, by decide⟩, by decide, by decide, by decide⟩
+
+/-- the container of an array built from a view (any accessor policy, any layout of the array) has exactly the elements
+    the adopted mapping requires: every later access at a valid index is inside the container; for an exhaustive
+    (left/right) array over the view's extents that number is `other.size()` -/
+theorem mdarray_from_view_container (m : Mapping) (other : View) :
     (Md.fromView m other).data.length = m.requiredSpan ∧ (Md.fromView m other).map = m ∧
-    ∀ I, Valid m.rank m.ext I → m.offset I < (Md.fromView m other).data.length := by
-  have hlen : (Md.fromView m other).data.length = mdSize other.map.rank other.map.ext := by
+    (∀ I, Valid m.rank m.ext I → m.offset I < (Md.fromView m other).data.length) ∧
+    (m.lay ≠ .stride → other.map.rank = m.rank → (∀ k, k < m.rank → other.map.ext k = m.ext k) →
+      (Md.fromView m other).data.length = mdSize other.map.rank other.map.ext) := by
+  have hlen : (Md.fromView m other).data.length = m.requiredSpan := by
     unfold Md.fromView
-    rw [initFromView_eq, initFold_length, List.length_replicate]
-  have hreq : mdSize other.map.rank other.map.ext = m.requiredSpan := by
-    rw [mdSize_eq, hrank, prodFrom_congr (fun k _ hk => hext k (by simpa using hk))]
+    rw [initFromView_eq, initFold_length, List.length_replicate, (mdarray_from_view_alloc m other).1]
+  refine ⟨hlen, ?_, fun I hI => by rw [hlen]; exact offset_in_range m I hI, fun hm hrank hext => ?_⟩
+  · unfold Md.fromView
+    rw [initFromView_eq, initFold_map]
+  · rw [hlen, mdSize_eq, hrank, prodFrom_congr (fun k _ hk => hext k (by simpa using hk))]
     cases m with | mk lay rank ext str =>
     cases lay
-    · show _ = product rank ext; rw [product_eq]
-    · show _ = product rank ext; rw [product_eq]
+    · show product rank ext = _; rw [product_eq]
+    · show product rank ext = _; rw [product_eq]
     · exact absurd rfl hm
-  refine ⟨hlen, by rw [hlen, hreq], ?_, fun I hI => by rw [hlen, hreq]; exact offset_in_range m I hI⟩
-  unfold Md.fromView
-  rw [initFromView_eq, initFold_map]
 
-theorem mdarray_from_mdspan_container (m : Mapping) (hm : m.lay ≠ .stride) (other : Md)
-    (hrank : other.map.rank = m.rank) (hext : ∀ k, k < m.rank → other.map.ext k = m.ext k) :
-    (Md.fromMdspan m other).data.length = mdSize other.map.rank other.map.ext ∧
+theorem mdarray_from_mdspan_container (m : Mapping) (other : Md) :
     (Md.fromMdspan m other).data.length = m.requiredSpan ∧ (Md.fromMdspan m other).map = m ∧
-    ∀ I, Valid m.rank m.ext I → m.offset I < (Md.fromMdspan m other).data.length :=
-  mdarray_from_view_container m hm other.toView hrank hext
+    (∀ I, Valid m.rank m.ext I → m.offset I < (Md.fromMdspan m other).data.length) ∧
+    (m.lay ≠ .stride → other.map.rank = m.rank → (∀ k, k < m.rank → other.map.ext k = m.ext k) →
+      (Md.fromMdspan m other).data.length = mdSize other.map.rank other.map.ext) :=
+  mdarray_from_view_container m other.toView
 
 /-- conversions of views refer to equal elements: a view whose mapping was converted by any of the mapping
     constructors (`mdspan(const mdspan<…>&)`: same data handle, `mapping_type(other.mapping())`) reads, at every index
@@ -736,7 +749,7 @@ theorem mdarray_size_any_container (m : Mapping) (c : List Int) :
     · exact product_eq rank ext
     · exact absurd rfl hm
   refine ⟨by rw [hs, hreq], ?_⟩
-  have := (mdarray_from_mdspan_container m hm (Md.fromContainer m c) rfl (fun _ _ => rfl)).1
+  have := (mdarray_from_mdspan_container m (Md.fromContainer m c)).2.2.2 hm rfl (fun _ _ => rfl)
   show (Md.fromMdspan m (Md.fromContainer m c)).data.length = _
   rw [this, hs]
   exact mdSize_eq m.rank m.ext
